@@ -44,8 +44,26 @@ type FMap struct {
 	To      []FEntry `json:"to,omitempty"`
 	Take    *int     `json:"take,omitempty"`
 	TakeMap bool     `json:"takemap,omitempty"` // Take: the field holds a (nested) map, the successor's input is a map
+	// Path: ONE mapping with nested paths (FromFieldPath / ToFieldPath / MapFieldPaths); To and Take are unused
+	Path *FPath `json:"path,omitempty"`
 
 	mapValued bool // generator's note for the distribution: some MapFields source holds a map
+}
+
+// FPath is a mapping from the path From of the predecessor's output (empty: the whole output) to the
+// path To of the successor's input (empty: the whole input); at least one of them has two or more steps.
+type FPath struct {
+	From    []int `json:"from,omitempty"`
+	To      []int `json:"to,omitempty"`
+	TakeMap bool  `json:"takemap,omitempty"` // To empty: the value taken is a (nested) map
+}
+
+func fieldPath(ks []int) compose.FieldPath {
+	var fp compose.FieldPath
+	for _, k := range ks {
+		fp = append(fp, keyStr(k))
+	}
+	return fp
 }
 
 type Prog struct {
@@ -64,6 +82,15 @@ type Prog struct {
 func (f *FMap) mappings() []*compose.FieldMapping {
 	if f == nil {
 		return nil
+	}
+	if f.Path != nil {
+		switch {
+		case len(f.Path.To) == 0:
+			return []*compose.FieldMapping{compose.FromFieldPath(fieldPath(f.Path.From))}
+		case len(f.Path.From) == 0:
+			return []*compose.FieldMapping{compose.ToFieldPath(fieldPath(f.Path.To))}
+		}
+		return []*compose.FieldMapping{compose.MapFieldPaths(fieldPath(f.Path.From), fieldPath(f.Path.To))}
 	}
 	if f.Take != nil {
 		return []*compose.FieldMapping{compose.FromField(keyStr(*f.Take))}
@@ -104,6 +131,9 @@ func (p *Prog) inMap() bool {
 // type of the value the successors of p receive
 func (p *Prog) outMap() bool {
 	if p.OutMap != nil {
+		if p.OutMap.Path != nil {
+			return len(p.OutMap.Path.To) > 0 || p.OutMap.Path.TakeMap
+		}
 		if p.OutMap.Take != nil {
 			return p.OutMap.TakeMap
 		}
@@ -1165,6 +1195,8 @@ func packI[I any](sp *NSpec, rec *recorder) runner {
 		return packT[I, string](sp, rec)
 	case sp.TOut:
 		return packT[I, map[string]string](sp, rec)
+	case sp.NOut:
+		return packT[I, NMap](sp, rec)
 	}
 	return packT[I, map[string]any](sp, rec)
 }
@@ -1175,6 +1207,8 @@ func pack(sp *NSpec, rec *recorder) runner {
 		return packI[string](sp, rec)
 	case sp.TIn:
 		return packI[map[string]string](sp, rec)
+	case sp.NIn:
+		return packI[NMap](sp, rec)
 	}
 	return packI[map[string]any](sp, rec)
 }
